@@ -12,7 +12,7 @@ EXPLANATION = ('Tag-name comparison is proved to fold ASCII case exactly when th
 LEVEL_TEXT = EXPLANATION
 TIMEOUT_MS = {'quick': 20000, 'thorough': 120000}
 MUSTFAIL_PER_FN = {'quick': 1, 'thorough': 6}
-BOUNDED = [hub_bounded('C11-case', ['attrs', 'basic', 'forms', 'ns', 'svghtml', 'plain', 'svg5'], ['ns', 'core', 'html'], nsnames=('none', 'svg'))]
+BOUNDED = [hub_bounded('C11-case', ['attrs', 'basic', 'forms', 'ns', 'svghtml', 'plain', 'svg5', 'xforms'], ['ns', 'core', 'html'], nsnames=('none', 'svg'))]
 
 
 def _bt_attr_ops(ctx):
